@@ -1,5 +1,5 @@
 """C06 — holds expire in [E, E+2 s], notify the holder and free capacity."""
-from props import engine_common
+from props import engine_common, ms_common
 from props.c01 import FINISH
 
 THEOREMS = ["Slock.C06.reachable_HInv", "Slock.C06.C06_deadline_grant", "Slock.C06.expiryDeadline_eq", "Slock.C06.C06_update_restarts",
@@ -15,10 +15,13 @@ def run(ctx):
     if ctx.tier == "thorough":
         ctx.leanchecker("Slock.Properties.C06")
     engine_common.run_engine(ctx, ["C06:"], n_quick=3000, n_thorough=60000)
+    ms_common.run_ms(ctx, 'hold')
     ctx.assumptions.append("server time = the virtual clock; one sweep per elapsed second; millisecond expiries and follower-side deferral are not modelled here")
     ctx.cov["rule"] = ("seeded sequences with expiries 1..65535 s / minutes / unlimited, updates that lengthen or shorten, re-locks, unlocks at every tick; monitor: EXPRIED in "
                        "[E, E+2] s (E+10 after a shortening update) of virtual time, unlimited never, hold gone after the notice")
 
 
 def replay(path):
+    if ms_common.is_ms_replay(path):
+        return ms_common.replay_ms("C06", path)
     return engine_common.replay_engine("C06", path)
